@@ -562,3 +562,15 @@ def _c12_json_met_twice(fa, v, case, data, one_case, sh, seed):
     case2 = {"schema": js2, "node": node, "data": data2}
     vs = c12.one_case(sh.__class__("C12", {}), fa, random.Random(1), case2, [], subset if subset else None)
     return not [x for x in vs if x[2].get("op") == "json"]
+
+
+witness("C12", "json-record-met-twice", (
+    {"type": "record", "name": "Top", "namespace": "c", "fields": [
+        {"name": "a", "type": {"type": "record", "name": "R", "fields": [
+            {"name": "f", "type": {"type": "record", "name": "Rec", "fields": [{"name": "y", "type": "int"}]}}]}},
+        {"name": "b", "type": "c.R"}]},
+    [{"a": {"f": {"y": 1}}, "b": {"f": {"y": 2}}}], ["c.Rec"]))
+
+witness("C20", "generated-raw-value-lands-in-narrower-logical-branch",
+        [{"type": "map", "values": {"type": "long", "logicalType": "timestamp-millis"}},
+         {"type": "record", "name": "Raw", "fields": [{"name": "a", "type": "long"}, {"name": "b", "type": "long"}]}])
